@@ -7,7 +7,7 @@ import traceback
 
 from vlib import corpus
 from vlib import unitsnap as us
-from vlib.core import sighash
+from vlib.core import sighash, CaseTimeout
 from vlib.fgenlab import ProgGen
 from vlib.hostilegen import HostileGen, pick_flags
 
@@ -225,12 +225,16 @@ def round_trip(obj, label, res, witness, second):
     try:
         before_raw = us.snapshot(obj)
         links_before = call_links(obj)
+    except CaseTimeout:
+        raise
     except Exception:
         cnt['snapshot_exceptions'] = cnt.get('snapshot_exceptions', 0) + 1
         return 0
     try:
         data = pickle.dumps(obj)
         copy = pickle.loads(data)
+    except CaseTimeout:
+        raise
     except Exception as e:
         tb = traceback.format_exc()
         msg = str(e)
@@ -253,6 +257,8 @@ def round_trip(obj, label, res, witness, second):
     cnt['eq_checks'] = cnt.get('eq_checks', 0) + 1
     try:
         eq = (copy == obj)
+    except CaseTimeout:
+        raise
     except Exception as e:
         eq = None
         viol(f'pickle:eq-raises:{type(e).__name__}', f'copy == original raised {e}')
@@ -263,11 +269,15 @@ def round_trip(obj, label, res, witness, second):
         if after != before:
             viol(f'pickle:changes-original:{"+".join(us.diff_kinds(before, after))}',
                  f'pickling changed the original: {us.snap_diff(before, after)[:3]}')
+    except CaseTimeout:
+        raise
     except Exception as e:
         viol(f'pickle:original-broken:{type(e).__name__}', f'original cannot be observed after pickling: {e}')
     # ---- same code, same tables
     try:
         snap = snapshot(copy)
+    except CaseTimeout:
+        raise
     except Exception as e:
         viol(f'pickle:copy-unobservable:{type(e).__name__}', f'fgen / table dump of the unpickled object raised: {str(e)[:200]}',
              traceback=traceback.format_exc()[-1200:])
@@ -345,6 +355,8 @@ def round_trip(obj, label, res, witness, second):
                 t1, t2 = v.type, v2.type
                 d1 = norm_links(us.attr_dump(t1, own_o), 'kind') if t1 is not None else None
                 d2 = norm_links(us.attr_dump(t2, own_c), 'kind') if t2 is not None else None
+            except CaseTimeout:
+                raise
             except Exception as e:
                 bad_type.append(f'{v2}: type lookup raised {type(e).__name__}')
                 continue
@@ -383,6 +395,8 @@ def round_trip(obj, label, res, witness, second):
                         # through a shadowing (enriched) entry in an inner scope?
                         k = 'contained-registration' if y[5] == x[4].rsplit('/', 1)[0] else 'enriched-entry'
                     link_loss.setdefault(k, []).append(f'call {x[1]} in {x[0]}: routine {x[3]} ({x[2]}) -> {y[3] or "DEFERRED"} ({y[2]})')
+    except CaseTimeout:
+        raise
     except Exception as e:
         viol(f'pickle:call-links-unobservable:{type(e).__name__}', str(e)[:200])
     for k, lst in sorted(link_loss.items()):
@@ -397,6 +411,8 @@ def round_trip(obj, label, res, witness, second):
             elif not copy2 == copy:
                 viol(f'pickle:second-round-trip-not-equal:{kind}', 'loads(dumps(copy)) != copy')
             cnt['second_round_trips'] = cnt.get('second_round_trips', 0) + 1
+        except CaseTimeout:
+            raise
         except Exception as e:
             what = "KeyError-_ast" if isinstance(e, KeyError) and '_ast' in str(e) else type(e).__name__
             viol(f'pickle:second-round-trip-exception:{what}', f'{type(e).__name__}: {str(e)[:200]}',
@@ -456,6 +472,8 @@ def run_case(idx, rng, tier, ctx):
             routs = [(p, s) for p, s in units if isinstance(s, Subroutine) and '/Interface:' not in p]
             rng.shuffle(routs)
             targets += mods + routs[:4]
+    except CaseTimeout:
+        raise
     except Exception as e:
         res['features'].append('parse-failed')
         if skind not in ('corpus',):
